@@ -35,6 +35,8 @@ impl<V: PartialEq, M: Ord> CvRDT for LWWReg<V, M> {
     open spec fn cv_inv(&self) -> bool { lww_ok::<V, M>() }
     open spec fn cv_pre(&self, other: &Self) -> bool { true }
     open spec fn cv_post(old_: &Self, other: &Self, new_: &Self) -> bool { true }
+    open spec fn cv_vhyp() -> bool { true }
+    open spec fn cv_flag(&self, other: &Self) -> bool { lww_conflict(*self, other.val, other.marker) }
 
 //@extract fn src/lwwreg.rs "CvRDT for LWWReg" validate_merge
     fn validate_merge(&self, other: &Self) -> /*@ (r: @*/ Result<(), Self::Validation> /*@ ) @*/
@@ -61,6 +63,8 @@ impl<V: PartialEq, M: Ord> CmRDT for LWWReg<V, M> {
     open spec fn cm_pre(&self, op: &Self) -> bool { true }
     open spec fn cm_post(old_: &Self, op: &Self, new_: &Self) -> bool { true }
     open spec fn cm_vpre(&self, op: &Self) -> bool { true }
+    open spec fn cm_vhyp() -> bool { true }
+    open spec fn cm_vflag(&self, op: &Self) -> bool { lww_conflict(*self, op.val, op.marker) }
 
 //@extract fn src/lwwreg.rs "CmRDT for LWWReg" validate_op
     fn validate_op(&self, op: &Self::Op) -> /*@ (r: @*/ Result<(), Self::Validation> /*@ ) @*/
